@@ -291,3 +291,22 @@ def union_order_conflict(term) -> bool:
                 return True
             seen.setdefault(key, order)
     return False
+
+
+def plain_wire(w):
+    """A wire value with user subclasses of str / int / float (not enums) replaced by the builtin value they are: what a JSON
+    text or an independent parser can carry. marshal(IntSub(1), t=IntSub) may hand back the IntSub itself - it IS an int."""
+    import enum
+
+    if isinstance(w, enum.Enum) or isinstance(w, bool):
+        return w
+    for base in (str, int, float):
+        if isinstance(w, base) and type(w) is not base:
+            return base(w)
+    if type(w) is dict:
+        return {plain_wire(k): plain_wire(x) for k, x in w.items()}
+    if type(w) is list:
+        return [plain_wire(x) for x in w]
+    if type(w) is tuple:
+        return tuple(plain_wire(x) for x in w)
+    return w
